@@ -59,6 +59,29 @@ pub fn run(case: &JobCase) -> Outcome {
 	o
 }
 
+#[derive(Clone, Debug, serde::Serialize, serde::Deserialize)]
+pub struct MtCase {
+	pub case: JobCase,
+	pub senders: usize,
+}
+
+pub fn run_mt(c: &MtCase) -> Outcome {
+	let mut o = Outcome::pass();
+	let trace = crate::jobdrive::run_case_mt(&c.case, c.senders, 3_000);
+	let spawns = trace.log.iter().filter(|r| matches!(r.ev, Ev::Spawned { .. })).count();
+	if spawns >= 2 {
+		o.label("2+spawns");
+	}
+	o.nontrivial = spawns >= 2;
+	if let Some((t, true)) = trace.task_end {
+		o.fail("task-panic", format!("job task panicked at {t} ms\ncase {c:?}"));
+	}
+	if let Some(msg) = overlap(&trace) {
+		o.fail("overlap", format!("{msg}\ncase {c:?}\nlog: {}", jobgen::fmt_log(&trace)));
+	}
+	o
+}
+
 pub fn check(e: &Engine) {
 	e.assume("children are simulated through the public spawn hook (production job task, paused tokio clock, ms ticks); one real /bin/true is spawned per simulated spawn");
 	let exhaustive_len = e.tier.pick(3, 4);
@@ -76,5 +99,19 @@ pub fn check(e: &Engine) {
 		&run,
 	);
 	e.require_label("random", "2+spawns", 0.25);
+	e.explore(
+		"multi-thread",
+		LegOpts {
+			cases: e.tier.pick(200, 4_000),
+			shards: 8,
+			threads: 8,
+			confirm: 1,
+			max_shrink_iters: 10,
+			rule: "the same controls sent from 2-4 concurrent tasks on a multi-thread runtime with real millisecond timers (children exit by themselves within 80 ms, graces 0-20 ms); the overlap invariant must hold under whatever schedule the OS produces",
+			confirm_any: &[],
+		},
+		&|| (jobgen::mt_case(), 2usize..5).prop_map(|(c, n)| MtCase { case: c, senders: n }).boxed(),
+		&run_mt,
+	);
 	let _ = Op::Start;
 }
